@@ -21,7 +21,10 @@ PROP = "C10"
 WATCHDOG_S = 3000
 
 
-def allowed_sets(desc, pars):
+def allowed_sets(desc, pars, lenient=None):
+    """lenient (optional dict, filled): per output, inputs that are allowed only because an implementation
+    may *form* an expression containing them (the density of a single entering link in v q / q): a
+    structural dependence is accepted, a numerically significant one is not."""
     ins, outs, org, dst = R.topology(desc)
     A = {}
 
@@ -63,6 +66,12 @@ def allowed_sets(desc, pars):
                     # on its density) — allowed either way
                     for mu in ins[up]:
                         s |= seg(mu, mu["N"] - 1)
+                    if lenient is not None and len(ins[up]) == 1:
+                        mu = ins[up][0]
+                        k_ = (mu["id"], "rho", mu["N"] - 1)
+                        if k_ not in own and not (i < N - 1 and k_ == (l["id"], "rho", i + 1)) \
+                                and not (N == 1 and any(x["id"] == mu["id"] for x in outs[dn])):
+                            lenient.setdefault((l["id"], "v", i), set()).add(k_)
                 o = org.get(up)
                 if (pars.get("delta") is not None and o is not None and o["kind"] in ("ramp", "simple") and ins[up]):
                     s |= origin_vars(o)
@@ -165,7 +174,8 @@ def taint(M, rec, rng, desc, pars, st):
 
 def perturb_numpy(M, rec, rng, g, desc, pars, points):
     NE, CE = drive.engines(M)
-    A = allowed_sets(desc, pars)
+    LEN = {}
+    A = allowed_sets(desc, pars, LEN)
     built = D.build(M, desc, D.random_ops(desc, rng))
     lay = D.var_layout(desc)
     kw = drive.step_pars(pars)
@@ -204,6 +214,12 @@ def perturb_numpy(M, rec, rng, g, desc, pars, points):
                             rec.count("observed_influences_numpy")
                             if ik not in A[ok]:
                                 rec.violation(f"{PROP}:perturbation(numpy): {classify(desc, ok, ik)}",
+                                              {"desc": desc, "pars": pars, "vals": vals, "output": list(ok), "input": list(ik),
+                                               "base": x, "perturbed": y})
+                            elif ik in LEN.get(ok, ()) and abs(x - y) > 1e-10 * (1 + abs(x)):
+                                # the first segment's speed after a node with ONE entering link takes that link's
+                                # speed; its density may only enter through rounding of an expression that cancels
+                                rec.violation(f"{PROP}:perturbation(numpy): first-segment speed changes significantly with the density of the single entering link",
                                               {"desc": desc, "pars": pars, "vals": vals, "output": list(ok), "input": list(ik),
                                                "base": x, "perturbed": y})
                             else:
@@ -266,6 +282,13 @@ def run(M, rec, tier, seed, k, n):
             desc = g.network(rng.choice(("chain", "ramp", "random")), force=("long", "vsl"))[1]
             rec.count("networks_with_long_speed_limited_links")
         pars = g.pars()
+        if it % 9 in (1, 7):
+            # every on-ramp variant merging at an interior node, with the merging term on
+            desc = g.network(rng.choice(("ramp", "ramp", "random")))[1]
+            var = G.RAMP_VARIANTS[(it // 9 + (it % 9 == 7) * 2) % 4]
+            if G.set_interior_ramps(desc, var):
+                rec.seen("interior_ramp_variants_with_merging_term", var)
+            pars = g.pars(delta=True)
         rec.seen("net_signatures", D.signature(desc))
         case = None
         for st in ("SX", "MX"):
@@ -284,6 +307,7 @@ def finish(M, rec, write=True):
     if not rec.violations:
         rec.gate(rec.counters.get("taint_dependencies_checked", 0) > 0, "no symbolic dependency observed")
         rec.gate(rec.counters.get("observed_influences_numpy", 0) > 0, "no numeric influence observed")
+        rec.gate(rec.n_seen("interior_ramp_variants_with_merging_term") == 4, "not every on-ramp variant seen merging at an interior node")
         rec.gate(rec.counters.get("compile_failed", 0) <= 0.02 * max(1, rec.counters.get("taint_functions", 0)), "too many cases failed to compile")
         rec.gate(rec.counters.get("layout_mismatch_skipped", 0) == 0, "compiled function layout differs from the documented one (see C04)")
     return rec.finish(
